@@ -124,3 +124,52 @@ def literal_rule(ctx, rep, R, rel, cls_name, handlers, what):
         bad = lossy_conversions(fns)
         rep.ob(R, "%s:%s.%s" % (rel, cls_name, h), "lossless text of literal values",
                not bad, "%s: %s" % (what, "; ".join("%s in %s(): `%s`" % (w, f, norm(n)[:60]) for n, f, w in bad[:3])))
+
+
+# -- implicit string concatenation inside a table of words ---------------------------------------------------------------
+import io  # noqa: E402
+import tokenize  # noqa: E402
+
+_WORD = re.compile(r"^[A-Za-z_][A-Za-z0-9_.]*$")
+
+
+def implicit_concatenations(text: str):
+    """[(lineno, joined, pieces)] for every element of a list/tuple/set literal of word-like strings (>= 2 elements) that is
+    spelled as several adjacent string tokens: `("a", "b" "c", "d")` — Python joins "b" "c" into "bc", which is what a lost
+    comma in a table of names does.  Only collections whose elements are all word-like strings are looked at (a message
+    broken over lines is not a table entry), and only elements whose pieces are word-like as well."""
+    tree = ast.parse(text)
+    lines = text.splitlines(keepends=True)
+    out = []
+    for n in ast.walk(tree):
+        if not isinstance(n, (ast.List, ast.Tuple, ast.Set)) or len(n.elts) < 2:
+            continue
+        if not all(isinstance(e, ast.Constant) and isinstance(e.value, str) and _WORD.match(e.value) for e in n.elts):
+            continue
+        for e in n.elts:
+            seg = ast.get_source_segment(text, e)
+            if seg is None:
+                continue
+            try:
+                toks = [t for t in tokenize.generate_tokens(io.StringIO("(" + seg + ")").readline) if t.type == tokenize.STRING]
+            except (tokenize.TokenError, IndentationError):
+                continue
+            if len(toks) > 1:
+                out.append((e.lineno, e.value, [t.string for t in toks]))
+    return out
+
+
+_SELFTEST = 'T = (\n    "parameter",\n    "discrete"\n    "constant",\n)\nM = ("a long message "\n     "in two pieces")\nU = ["x", "y"]\n'
+
+
+def no_implicit_concat(ctx, rep, R, rel, what):
+    # the rule's expected count is zero: a positive example must match on every run
+    st = implicit_concatenations(_SELFTEST)
+    if [j for _, j, _ in st] != ["discreteconstant"]:
+        from ..engine import AnalysisError
+        raise AnalysisError(R, "self-test of the implicit-concatenation detector failed: %r" % (st,))
+    text = ctx.read(rel, R)
+    hits = implicit_concatenations(text)
+    rep.ob(R, rel, "no entry of a table of names is two adjacent string literals (%s)" % what, not hits,
+           "%s — a comma is missing: Python joins adjacent literals, so the table holds one joined word instead of the two intended "
+           "ones and neither of them is recognised any more" % "; ".join("line %d: %s = %s" % (ln, " ".join(p), repr(j)) for ln, j, p in hits[:5]))
